@@ -433,7 +433,7 @@ func (c *c10Child) runServerCase(k *c10Case) c10Reply {
 					}
 				}
 			}
-			if s.SeqSel == "next" && s.Expect == "deliver" && c10IsData(s.Proto) {
+			if s.SeqSel == "next" && s.Expect == "deliver" && c10ConsumesSeq(s.Proto) {
 				if ps := home.sess[sid]; ps != nil && seq >= ps.nextSend {
 					ps.nextSend = seq + 1 // the endpoint will consume this number
 				}
@@ -558,8 +558,15 @@ func (c *c10Child) runServerCase(k *c10Case) c10Reply {
 				return false
 			}
 			switch s.Expect {
-			case "createSession":
+			case "createSession", "createSession+closed":
 				c.waitFor(c10ProbeTimeout, acceptedNow)
+				if s.Expect == "createSession+closed" {
+					// the session is handed to Accept() and then fails on its first segment: let that happen
+					// now, so that the closure is not attributed to the next step
+					if a := c.appSess(sid); a != nil {
+						c.waitFor(c10ProbeTimeout, func() bool { _, cl := a.snapshot(); return cl })
+					}
+				}
 			case "closeSession":
 				if isOwn || created[sid] {
 					if a := c.appSess(sid); a != nil {
@@ -941,7 +948,7 @@ func (c *c10Child) runClientCase(k *c10Case) c10Reply {
 					if c.udp && ps.peerUnAck > seq {
 						seq = ps.peerUnAck
 					}
-					if s.Expect == "deliver" && c10IsData(s.Proto) {
+					if s.Expect == "deliver" && c10ConsumesSeq(s.Proto) {
 						ps.nextSend = seq + 1
 					}
 				}
@@ -1116,6 +1123,10 @@ func c10AssocTypes() c10Reply {
 		return c10Reply{Error: "RunUDPAssociateLoop did not return"}
 	}
 }
+
+// c10ConsumesSeq: segments `Session.input` hands to inputData take the next sequence number of their
+// session when they are accepted (open request / response and data of either kind).
+func c10ConsumesSeq(p int) bool { return p == 2 || p == 3 || c10IsData(p) }
 
 // c10HostileContent fills b with bytes >= 0x80 that depend on the case and the step.
 func c10HostileContent(b []byte, seed int64, step int) {
